@@ -208,6 +208,53 @@ class BaseInstance:
             if op == 'saturating_sub':
                 return R(ite(z3.UGE(a, b), a - b, bv(0, a.size())))
             return R(ite(z3.BVAddNoOverflow(a, b, False), a + b, bv((1 << a.size()) - 1, a.size())))
+        # ---- shared-slice iteration, last(), Option<&T> equality (common in rewrites of loops over the free list)
+        if re.match(r'^core::slice::<impl \[.*\]>::iter$', c):
+            return R(['sliceiter', args[0], bv(0, 64)])
+        if re.match(r"^<std::slice::Iter<'_, .*> as IntoIterator>::into_iter$", c):
+            return R(args[0])
+        if re.match(r"^<std::slice::Iter<'_, .*> as Iterator>::next$", c):
+            it = eng.read(st, args[0])
+            vec = eng.read(st, it[1])
+            i = it[2]
+
+            def some(st2):
+                eng.write(st2, args[0], ['sliceiter', it[1], z3.simplify(i + 1)])
+                eng.ret_value(st2, st2.frames[-1], stmt, ['enum', bv(1, 64), [Ref(it[1].root, it[1].path + (('i', i),))]])
+
+            def none(st2):
+                eng.ret_value(st2, st2.frames[-1], stmt, ['enum', bv(0, 64), []])
+            lt = b_ult(i, vec.len)
+            return eng.fork(st, [(lt, some), (b_not(lt), none)])
+        if re.match(r'^core::slice::<impl \[.*\]>::(last|first)$', c):
+            vec = eng.read(st, args[0])
+            which = c.rsplit('::', 1)[1]
+
+            def some(st2):
+                v2 = eng.read(st2, args[0])
+                idx = bv(0, 64) if which == 'first' else v2.len - 1
+                eng.ret_value(st2, st2.frames[-1], stmt, ['enum', bv(1, 64), [Ref(args[0].root, args[0].path + (('i', idx),))]])
+
+            def none(st2):
+                eng.ret_value(st2, st2.frames[-1], stmt, ['enum', bv(0, 64), []])
+            e = b_eq(vec.len, bv(0, 64))
+            return eng.fork(st, [(b_not(e), some), (e, none)])
+        m = re.match(r'^<Option<&(u8|u16|u32|u64|usize)> as PartialEq>::(eq|ne)$', c)
+        if m:
+            a = eng.read(st, args[0]); b = eng.read(st, args[1])
+            da, db = a[1], b[1]
+            both = b_and(b_eq(da, bv(1, 64)), b_eq(db, bv(1, 64)))
+            if a[2] and b[2]:
+                va = eng.read(st, a[2][0]); vb = eng.read(st, b[2][0])
+                eq = b_and(b_eq(da, db), z3.Implies(both, va == vb) if not (z3.is_true(both)) else b_eq(va, vb))
+            else:
+                eq = b_eq(da, db)
+            return R(eq if m.group(2) == 'eq' else b_not(eq))
+        if c.startswith('std::vec::from_elem::<') or c.startswith('alloc::vec::from_elem::<'):
+            n = eng.concretize(args[1])
+            if n is None or n > 64:
+                raise Unsupported('vec![x; n] with a symbolic or large n')
+            return R(VecVal(bv(n, 64), [args[0]] * n, bv(n, 64)))
         if c == '<usize as Ord>::max':
             a, b = args
             return R(ite(z3.UGE(a, b) if not (z3.is_bv_value(a) and z3.is_bv_value(b)) else (TRUE if a.as_long() >= b.as_long() else FALSE), a, b))
